@@ -108,8 +108,9 @@ def configs(thorough, seed):
     out = []
     models = ['mlp3', 'conv', 'convsq', 'seq3d']
     batches = (1, 2, 3) if thorough else (1, 3)
-    decays = [0.5, 0.95, 1.0, ['exp', 0.95]] if thorough else \
-        [0.5, ['exp', 0.95]]
+    # the cyclic schedule returns exactly 1.0 on a later update step
+    decays = [0.5, 0.95, 1.0, ['exp', 0.95], ['cyc', [0.5, 1.0, 0.7]]] \
+        if thorough else [0.5, ['exp', 0.95], ['cyc', [0.5, 1.0, 0.7]]]
     accs = (1, 2, 3) if thorough else (1, 2)
     scales = [None, 8.0, ['cyc', [8.0, 2.0, 32.0]]] if thorough else \
         [None, ['cyc', [8.0, 2.0, 32.0]]]
@@ -141,6 +142,17 @@ def configs(thorough, seed):
             if sc is not None:
                 cfg['scale'] = sc
             out.append(cfg)
+    # float16 factors with many rows of large inputs: the batch moment is
+    # O(1e3) while the raw sum of squares exceeds the float16 range
+    for model, b, hook, acc in itertools.product(
+            ['lin1', 'seq3d'], (32, 64), (True, False), (1, 2)):
+        k = dict(factor_update_steps=1, inv_update_steps=1, damping=0.1,
+                 factor_decay=0.5, kl_clip=1e-3, lr=0.1, factor_dtype='f16',
+                 accumulation_steps=acc, update_factors_in_hook=hook)
+        out.append({'model': model, 'dtype': 'f32', 'batch': b, 'world': 1,
+                    'seed': seed, 'kfac': k, 'x_mult': 40.0,
+                    'loss_mult': 0.1, 'sgd_lr': 0.0,
+                    'history': [['train']] * 3})
     # distributed: mean over ranks
     for model, world, acc, hook, bucket, sym in itertools.product(
             ['mlp3', 'conv'], (2, 3), (1, 2), (True, False), (0.0, 25.0),
@@ -170,7 +182,7 @@ def main(run: core.Run):
         'configuration box {linear incl. N-d inputs, conv geometries} x '
         'batch x decay (constants, exp-decay schedule) x accumulation x '
         'hook/no-hook x loss scale (none, constant, changing per step) x '
-        'factor dtype x factor interval {1,2} x compute method x train/eval '
+        'factor dtype (incl. float16 with large raw sums) x factor interval {1,2} x compute method x train/eval '
         'histories and reset_batch() inside an accumulation window; plus '
         'simulated worlds 2 and 3 (bucketed/unbucketed, symmetric/dense); '
         'after every step the state_dict factors are compared with the '
